@@ -106,3 +106,41 @@ func firstLine(s string) string {
 	}
 	return s
 }
+
+// C16, kills in quick succession: the first incarnation acknowledges a few MB and is killed; the second one is
+// killed while it is still recovering the first one's log (right after its first store, or after a short delay
+// from process start); only then is the store examined. Between the kills nobody closes the store gracefully.
+func TestVerif_C16_BackToBackKills(t *testing.T) {
+	pl := vh.NewPlain(t, "C16")
+	defer pl.Flush()
+	var cases []c16Case
+	var rc c16Case
+	if pl.ReplayCase(&rc) {
+		cases = []c16Case{rc}
+	} else {
+		seconds := []c16Cycle{{N: 1, Kill: "self", K: 0}, {N: 1, Kill: "parent", K: 0}, {N: 3, Kill: "delay", Delay: 60}, {N: 3, Kill: "delay", Delay: 120}}
+		sizes := []int{60}
+		if vh.Thorough() {
+			sizes = []int{30, 60, 150}
+			seconds = append(seconds, c16Cycle{N: 3, Kill: "delay", Delay: 30}, c16Cycle{N: 3, Kill: "delay", Delay: 90}, c16Cycle{N: 3, Kill: "delay", Delay: 200}, c16Cycle{N: 2, Kill: "self", K: 1})
+		}
+		for _, n := range sizes {
+			for si, sc := range seconds {
+				first := c16Cycle{N: n, Kill: "self", K: n - 1, Big: 3, NoVerify: true}
+				cases = append(cases, c16Case{Seed: uint64(100 + si), IDSpace: 40, Cycles: []c16Cycle{first, sc}})
+				// three in a row: the second kill also goes unexamined
+				sc2 := sc
+				sc2.NoVerify = true
+				cases = append(cases, c16Case{Seed: uint64(200 + si), IDSpace: 40, Cycles: []c16Cycle{first, sc2, {N: 1, Kill: "self", K: 0}}})
+			}
+		}
+	}
+	for _, c := range cases {
+		v, o := runC16(c)
+		o.NonTrivial = true
+		pl.Record(c, o)
+		if v != nil {
+			pl.Violate(v, c)
+		}
+	}
+}
